@@ -26,10 +26,11 @@ for p, b in sorted(F.bodies.items()):
         s = nf.full_form(F, p)
     except Exception as ex:
         continue
+    fam = subst.family(F.doc, p)
     if subst.lossy(s):
         n_lossy += 1
+        forms[p] = {"form": None, "raw": subst.raw_hash(fam)}      # only the 'unchanged' test is available
         continue
-    fam = subst.family(F.doc, p)
     forms[p] = {"form": nf.form_hash(s), "raw": subst.raw_hash(fam)}
     bodies[p] = fam
 json.dump({"commit": subprocess.check_output(["git", "-C", "/repo", "rev-parse", "HEAD"], text=True).strip(), "forms": forms}, open(os.path.join(HERE, "spec", "baseline_forms.json"), "w"), indent=0, sort_keys=True)
